@@ -379,6 +379,14 @@ func (fsm *FSM) Snapshot() (raft.FSMSnapshot, error) {
 	}, err
 }
 
+// replaceState swaps the package-level state. Other goroutines only read these
+// variables through currentIRCServer/currentOutputStream.
+func replaceState(i *ircserver.IRCServer, s *raftstore.LevelDBStore, o *outputstream.OutputStream) {
+	stateMu.Lock()
+	defer stateMu.Unlock()
+	ircServer, ircStore, outputStream = i, s, o
+}
+
 func (fsm *FSM) Restore(snap io.ReadCloser) error {
 	start := time.Now()
 	defer metrics.MeasureSince([]string{"robustirc", "fsm", "restore"}, start)
@@ -401,21 +409,20 @@ func (fsm *FSM) Restore(snap io.ReadCloser) error {
 	if err := os.RemoveAll(irclogPath); err != nil {
 		log.Fatal(err)
 	}
-	var err error
-	ircStore, err = raftstore.NewLevelDBStore(irclogPath, true, *useProtobuf)
+	newIRCStore, err := raftstore.NewLevelDBStore(irclogPath, true, *useProtobuf)
 	if err != nil {
 		log.Fatal(err)
 	}
-	fsm.ircstore = ircStore
+	fsm.ircstore = newIRCStore
 	if err := outputStream.Close(); err != nil {
 		glog.Error(err)
 	}
 
-	ircServer = ircserver.NewIRCServer(*network, time.Now())
-	outputStream, err = outputstream.NewOutputStream(*raftDir)
+	newOutputStream, err := outputstream.NewOutputStream(*raftDir)
 	if err != nil {
 		log.Fatal(err)
 	}
+	replaceState(ircserver.NewIRCServer(*network, time.Now()), newIRCStore, newOutputStream)
 	fsm.ReplaceState(ircServer, ircStore, outputStream)
 	// XXX(1.0): remove this conditional, all snapshots are protobuf-encoded now
 	b := bufio.NewReader(snap)
